@@ -432,7 +432,7 @@ func (c *c13Case) run(env *c13Env) (finds []c13Finding, cmdline string, strayDir
 	s := vs.RunOnce(nil, func() {
 		wf := sp.NewWorkflowCustomLogFile("c13", 4, "/dev/null")
 		src := components.NewFileSource(wf, "src", env.real(c.in))
-		p := wf.NewProc("p", pattern)
+		p := wf.NewProc(c13ProcName, pattern)
 		p.SetOut("out", env.real(c.out))
 		if c.has2 {
 			p.SetOut("out2", env.real(c.out2))
@@ -568,8 +568,15 @@ func (c *c13Case) run(env *c13Env) (finds []c13Finding, cmdline string, strayDir
 
 // ---------------------------------------------------------------- the job
 
+// c13ProcName: the name of the process under test (job arg procname; process names are free text:
+// with '/', blanks, capitals - the temp directory is derived from it)
+var c13ProcName = "p"
+
 func runC13(job *Job, res *Result) {
 	os.Setenv("SCIPIPE_BUFSIZE", "8")
+	if pn := job.Args["procname"]; pn != "" {
+		c13ProcName = pn
+	}
 	atoi := func(k string, def int) int {
 		if v, err := strconv.Atoi(job.Args[k]); err == nil {
 			return v
@@ -584,6 +591,9 @@ func runC13(job *Job, res *Result) {
 	}
 	cases, sizes := c13Enumerate(aDepth, bDepth, cAlpha, dDepth, shard, nshards)
 	res.Scenario = fmt.Sprintf("c13/outdepth=%d/indepth=%d/cross=%s/extras-depth=%d/shard=%d-of-%d", aDepth, bDepth, cAlpha, dDepth, shard, nshards)
+	if c13ProcName != "p" {
+		res.Scenario += fmt.Sprintf("/procname=%q", c13ProcName)
+	}
 	env := &c13Env{root: filepath.Join(job.Base, "c")}
 	env.cwd = filepath.Join(env.root, "u1/u2/u3/u4/u5/u6/cwd")
 	env.abs = filepath.Join(env.root, "v1/v2/v3/v4/abs")
